@@ -11,7 +11,8 @@
 //        "fifo":{"prefix":"hex","cycle":"hex","cap":n}?  (a named pipe fed by a thread; "@FIFO" in argv is replaced by its path;
 //                                                        obs.pulled = bytes the feeder handed over, obs.capped = cap reached)}
 // obs : {"id":n, "res":"ok"|"err"|"panic"|"cli", "msg":"...", "out":"hex", "err":"hex",
-//        "pulled":n, "reads":n, "opened":n, "eof":bool, "capped":bool, "ev":[...]}
+//        "pulled":n, "reads":n, "opened":n, "eof":bool, "capped":bool, "ev":[...],
+//        "calls":[[stage, kind, event, row, titles, outcome], ...] (with "calls": true in the case)}
 use clap::Parser;
 use jawk::{go, Cli};
 use serde_json::{json, Value};
@@ -333,7 +334,20 @@ fn run_case(case: &Value) -> Value {
             sh: sh2.clone(),
         }
     });
+    // "calls": true - record the start / process / complete calls of every stage (the jawk_verif hook, src/verif_trace.rs)
+    let want_calls = case["calls"].as_bool().unwrap_or(false);
+    if want_calls {
+        jawk::verif_trace::start_recording();
+    }
     let r = std::panic::catch_unwind(std::panic::AssertUnwindSafe(|| go(cli, out, err, factory)));
+    let calls: Vec<Value> = if want_calls {
+        jawk::verif_trace::take_events()
+            .into_iter()
+            .map(|e| json!([e.stage, e.kind, e.event, e.row, e.titles, e.outcome]))
+            .collect()
+    } else {
+        Vec::new()
+    };
     let (res, msg) = match r {
         Ok(Ok(())) => ("ok", String::new()),
         Ok(Err(e)) => ("err", format!("{e}")),
@@ -370,6 +384,9 @@ fn run_case(case: &Value) -> Value {
         "pulled": s.pulled, "reads": s.reads, "opened": s.opened, "eof": s.eof, "capped": s.capped});
     if log {
         o["ev"] = Value::Array(s.ev.clone());
+    }
+    if want_calls {
+        o["calls"] = Value::Array(calls);
     }
     if !paths.is_empty() {
         o["paths"] = json!(paths);
